@@ -121,8 +121,55 @@ def evaluate(sid, wt, tier, props):
     return 0
 
 
+def readme():
+    base = os.path.join(VERIF, "seeded")
+    rows = []
+    for sid in sorted(os.listdir(base)):
+        mp = os.path.join(base, sid, "meta.json")
+        if not os.path.exists(mp):
+            continue
+        m = json.load(open(mp))
+        res = {}
+        rp = os.path.join(base, sid, "result.json")
+        if os.path.exists(rp):
+            res = json.load(open(rp))
+        notes = ""
+        np_ = os.path.join(base, sid, "notes.md")
+        if os.path.exists(np_):
+            for ln in open(np_).read().split("\n"):
+                ln = ln.strip(" #*-")
+                if len(ln) > 25:
+                    notes = ln[:150]
+                    break
+        caught = [p for p, v in res.get("checks", {}).items() if v.get("rc") == 1 and v.get("violations")]
+        missed = [p for p, v in res.get("checks", {}).items() if not (v.get("rc") == 1 and v.get("violations"))]
+        status = "not valid on HEAD (neutralised by a later fix)" if m.get("valid_on_head") is False else \
+            ("caught by " + ", ".join(sorted(caught)) if caught else "MISSED")
+        rows.append((sid, m["property"], m.get("diffstat", ""), status, ", ".join(sorted(missed)), notes))
+    out = ["# Seeded changes", "",
+           "Each directory holds a change to twosigma/memento written by an independent sub-agent that was given only the text of one",
+           "property and a scratch worktree (`patch.diff`), its demonstration (`demo.py`: exit 1 with the change, 0 without), the agent's",
+           "`notes.md`, `meta.json` (what was confirmed, how) and `result.json` (which registered checks report a VIOLATION with the change",
+           "applied; quick tier). Ids: <property><A|B> first round, <property><C|D> second round. `python -m harness.seeded [ids]` re-runs the",
+           "evaluation against /repo itself (git apply, checks, git checkout); `python -m harness.seedtool eval <id> <worktree>` against a scratch",
+           "worktree.", "",
+           "| id | property | change | result (quick tier) | checks that stay silent | what the change is |", "|---|---|---|---|---|---|"]
+    for r_ in rows:
+        out.append("| %s | %s | %s | %s | %s | %s |" % tuple(str(x).replace("|", "/") for x in r_))
+    n = len(rows)
+    ok = sum(1 for r_ in rows if r_[3].startswith("caught"))
+    inv = sum(1 for r_ in rows if r_[3].startswith("not valid"))
+    out += ["", "%d changes: %d caught, %d no longer break the property on the current HEAD, %d missed." % (n, ok, inv, n - ok - inv), ""]
+    with open(os.path.join(base, "README.md"), "w") as f:
+        f.write("\n".join(out))
+    print(out[-2])
+
+
 def main():
     a = sys.argv[1:]
+    if a[0] == "readme":
+        readme()
+        return
     if a[0] == "intake":
         also = []
         if "--also" in a:
